@@ -184,6 +184,7 @@ class ExternalVariableCollector(NodeVisitor):
         if node.name is not None:
             self.provenance[node.name] = "body"
             self.assigned.add(node.name)
+        self.generic_visit(node)
 
     def visit_ClassDef(self, node):
         # The class name is a variable of the function; the class body is a
